@@ -401,10 +401,12 @@ def check_trap_boundary_off(ctx, case, grid_off, pts_off, w_off, touch_lo, touch
         with ctx.guard("B.history.idempotent", site, "trapezoidal-flag-switch-raises"):
             with quiet():
                 first = [(np.array(gon.coordinate_array[i], dtype=float), np.array(gon.weights[i], dtype=float), int(gon.numPoints[i])) for i in range(d)]
-                gon.set_boundaries([False] * d)
+                # the flags as python bools or -- what Grid.get_boundaries() returns and the library's own save / restore idiom passes back -- as a numpy bool array
+                np_flags = (sum(int(l) for l in levelvec) + d) % 2 == 0
+                gon.set_boundaries(np.zeros(d, dtype=bool) if np_flags else [False] * d)
                 gon.setCurrentArea(list(start), list(end), list(levelvec))
                 off = [(np.array(gon.coordinate_array[i], dtype=float), np.array(gon.weights[i], dtype=float), int(gon.numPoints[i])) for i in range(d)]
-                gon.set_boundaries([True] * d)
+                gon.set_boundaries(np.ones(d, dtype=bool) if np_flags else [True] * d)
                 gon.setCurrentArea(list(start), list(end), list(levelvec))
                 back = [(np.array(gon.coordinate_array[i], dtype=float), np.array(gon.weights[i], dtype=float), int(gon.numPoints[i])) for i in range(d)]
                 hist["ok"] = True
